@@ -399,6 +399,14 @@ func NewEmptyTwin(w *World) *World {
 	return t
 }
 
+// Rewire: the same committed stores served by freshly constructed keeper objects (what a node restarted
+// from its database has: nothing that lived in process memory survives).
+func (w *World) Rewire() *World {
+	t := &World{Ctx: w.Ctx, Bank: w.Bank, Staking: w.Staking, bankSnaps: w.bankSnaps}
+	t.wire("")
+	return t
+}
+
 func (w *World) wire(sfx string) {
 	cdc := SymCodec{}
 	kSao := sdk.NewKVStoreKey(saotypes.StoreKey + sfx)
